@@ -5,6 +5,7 @@ from .mutants import M, M2
 MT = 'falcon/util/mediatypes.py'
 HD = 'falcon/media/handlers.py'
 RQ = 'falcon/request.py'
+ARQ = 'falcon/asgi/request.py'
 
 # ----------------------------------------------------------------------- R1
 M('c11-score-swap-main-sub', 'C11', 'R1', MT,
@@ -53,6 +54,19 @@ M('c11-best-match-unguarded', 'C11', 'R1', MT,
             return matching
 """, """        return matching
 """)
+
+# look-alikes of the exact-parameter test (seeded s3-c11-1): equal SIZES are not equal name sets; one-way inclusion is
+# not equality.  R1 evaluates the component on a bounded model of both name sets and reports a concrete pair.
+_EXACT = "exact_match = 0 if mr_pnames ^ mt_pnames else 1"
+M('c11-exact-by-size', 'C11', 'R1', MT, _EXACT, "exact_match = 1 if len(mr_pnames) == len(mt_pnames) else 0")
+M('c11-exact-by-size-at-most', 'C11', 'R1', MT, _EXACT, "exact_match = 1 if len(mr_pnames) <= len(mt_pnames) else 0")
+M('c11-exact-by-size-difference', 'C11', 'R1', MT, _EXACT, "exact_match = 0 if len(self.params) - len(media_type.params) else 1")
+M('c11-exact-one-way-inclusion', 'C11', 'R1', MT, _EXACT, "exact_match = 1 if mr_pnames <= mt_pnames else 0")
+M('c11-exact-by-size-branches', 'C11', 'R1', MT, _EXACT,
+  "if len(mr_pnames) != len(mt_pnames):\n            exact_match = 0\n        else:\n            exact_match = 1")
+# negative controls verified by hand with --root (must stay silent): `1 if mr_pnames == mt_pnames else 0`,
+# `1 if not (mr_pnames ^ mt_pnames) else 0`, `int(mr_pnames == mt_pnames)`, `a <= b and b <= a`, `len(a ^ b) == 0`,
+# `self.params.keys() == media_type.params.keys()`, `len(a | b) == len(a & b)`, if/else assigning 0/1 on `a ^ b`.
 
 # several returns of a real score: every one of them is held to the component roles (seeded s2-c11-1).  The PERF
 # early return for parameter-less ranges states "exact parameter match" as a literal although only one side is
@@ -295,3 +309,41 @@ M('c11-client-accepts-unprotected', 'C11', 'R5', RQ,
 
 M('c11-cache-old-stdlib-parser', 'C11', 'R6', 'falcon/util/mediatypes.py',
   "def _parse_header_old_stdlib(line: str)", "@functools.lru_cache()\ndef _parse_header_old_stdlib(line: str)")
+
+# ----------------------------------------------------------------------- R7
+# the resolver must be asked about the content type as received (seeded s3-c11-3: WSGI get_media() looked the handler up
+# by the bare type "to avoid resolver cache churn", ASGI kept the full value)
+_ARGS = "self.content_type, self.options.default_media_type\n"
+M('c11-getmedia-wsgi-bare-type', 'C11', 'R7', RQ, """        handler, _, _ = self.options.media_handlers._resolve(
+            self.content_type, self.options.default_media_type
+        )
+""", """        content_type = self.content_type
+        handler, _, _ = self.options.media_handlers._resolve(
+            content_type and content_type.partition(';')[0].strip(),
+            self.options.default_media_type,
+        )
+""")
+M('c11-getmedia-asgi-bare-type', 'C11', 'R7', ARQ, _ARGS,
+  "self.content_type and self.content_type.partition(';')[0].strip(), self.options.default_media_type\n")
+M('c11-getmedia-wsgi-split', 'C11', 'R7', RQ, _ARGS,
+  "(self.content_type or '').split(';')[0], self.options.default_media_type\n")
+M('c11-getmedia-wsgi-parse-header', 'C11', 'R7', RQ, _ARGS,
+  "mediatypes.parse_header(self.content_type or '')[0], self.options.default_media_type\n")
+M('c11-getmedia-wsgi-lowered-local', 'C11', 'R7', RQ, """        handler, _, _ = self.options.media_handlers._resolve(
+            self.content_type, self.options.default_media_type
+        )
+""", """        media_type = self.content_type
+        if media_type:
+            media_type = media_type.lower()
+        handler, _, _ = self.options.media_handlers._resolve(
+            media_type, self.options.default_media_type
+        )
+""")
+M('c11-getmedia-default-ignored', 'C11', 'R7', RQ, _ARGS, "self.content_type, MEDIA_JSON\n")
+M('c11-getmedia-asgi-no-415', 'C11', 'R7', ARQ, _ARGS, "self.content_type, self.options.default_media_type, False\n")
+M('c11-render-body-bare-type', 'C11', 'R7', 'falcon/response.py', _ARGS,
+  "self.content_type.partition(';')[0], self.options.default_media_type\n")
+# negative controls verified by hand with --root (must stay silent): `ct = self.content_type` then `_resolve(ct, ...)`;
+# `opts = self.options; handlers = opts.media_handlers; handlers._resolve(self.content_type, opts.default_media_type)`;
+# keyword arguments in another order; a transformation of the local AFTER the call.  Unknown idioms (exit 2, no
+# violation): `self.content_type or <default>`, `.strip()` alone, `self.get_header('Content-Type')`.
